@@ -192,14 +192,13 @@ func c10One(c *Ctx, m *Model, cs c10Case) {
 		return
 	}
 	nStmts := len(fdb.statements())
-	// the model is given the filters sqlgen accepts (the others return their error before any statement)
+	// the model is given every call; a filter sqlgen rejects travels as the marker [[999, null]]
 	fsEnc := []interface{}{}
-	midx := make([]int, k)
-	for i, f := range cs.Filters {
-		midx[i] = -1
+	for _, f := range cs.Filters {
 		if c10Valid(f) {
-			midx[i] = len(fsEnc)
 			fsEnc = append(fsEnc, c10EncFilter(f))
+		} else {
+			fsEnc = append(fsEnc, []interface{}{[]interface{}{999, nil}})
 		}
 	}
 	resp, err := m.Call(map[string]interface{}{"op": "batch", "filters": fsEnc, "table": table})
@@ -214,7 +213,12 @@ func c10One(c *Ctx, m *Model, cs c10Case) {
 				"alone": alone[i], "batched": batched[i], "alone_error": fmt.Sprint(aloneErr[i]), "batched_error": fmt.Sprint(batchedErr[i]), "statements": fdb.statements()})
 			return
 		}
-		if c10Valid(cs.Filters[i]) != (aloneErr[i] == nil) {
+		ca, cb := resp["callAlone"].([]interface{})[i], resp["callBatched"].([]interface{})[i]
+		if (ca == nil) != (cb == nil) {
+			rep.Fail("model_ne_spec", nil, cs, map[string]interface{}{"what": "model: a call errs batched but not alone, or the reverse (theorem call_batched_eq_alone)", "query": i})
+			return
+		}
+		if (ca == nil) != (aloneErr[i] != nil) {
 			rep.Fail("impl_ne_model", nil, cs, map[string]interface{}{"what": "a query on its own: error expected iff the filter names an unknown column or carries a rejected value", "query": i, "filter": cs.Filters[i], "error": fmt.Sprint(aloneErr[i])})
 			return
 		}
@@ -222,10 +226,10 @@ func c10One(c *Ctx, m *Model, cs c10Case) {
 			rep.Count("invalid_filter_in_batch")
 			continue
 		}
-		mAlone := c10ModelIds(resp["alone"].([]interface{})[midx[i]])
-		mBatched := c10ModelIds(resp["batched"].([]interface{})[midx[i]])
+		mAlone := c10ModelIds(ca)
+		mBatched := c10ModelIds(cb)
 		if fmt.Sprint(mAlone) != fmt.Sprint(mBatched) {
-			rep.Fail("model_ne_spec", nil, cs, map[string]interface{}{"what": "model: dispatched differs from alone (theorem batch_eq_alone)", "query": i})
+			rep.Fail("model_ne_spec", nil, cs, map[string]interface{}{"what": "model: the batched call differs from the call alone (theorems batch_eq_alone, call_batched_eq_alone)", "query": i})
 			return
 		}
 		if fmt.Sprint(alone[i]) != fmt.Sprint(mAlone) {
